@@ -68,6 +68,55 @@ CHECKS = {
             'parameter, two levels) and both helpers: the helper value equals the real chain value for all mock and '
             'parameter values, also after forcing; mocks never run nor persist; missing inputs / parameters are '
             'reported at construction.', '7/C19'),
+    'C06': ('symbolic execution of the Data wrappers with opaque payloads (uninterpreted sort, serialiser contract) decided by cvc5/z3; boundary-pool values through the real serialisers by symbolic choice',
+            'taskchain\'s own layer (value/set_value, json-lines framing, listing order, truthiness) returns the '
+            'returned term for every payload under the serialiser contract; per storable domain a boundary pool '
+            '(27 JSON values x 3 wrappings, 16 arrays incl. 0-d, 11 frames/series, sequences, array lists, '
+            'directory trees) round-trips exactly through the real orjson/numpy/pandas, loading changes no file, an '
+            'overwritten result holds only the new value. Serialiser fidelity beyond the pool is not claimed.', '7/C06'),
+    'C08': ('bounded symbolic execution of Chain._process_dependencies with symbolic namespace/task names (cvc5/z3); whole-chain graphs compared with the reference by symbolic choice of pipeline, mounting and order',
+            'For all namespace and task names (unbounded, no ":"), namespace depth 0-2 and three declaration forms the '
+            'input resolves inside the declaring namespace (unsat per path); for 7 pipelines x 6 mountings x task '
+            'orders tasks, edges and closures equal the reference (nodes compared as computations); cycles of '
+            'length 1-3 and dangling inputs raise in both modes.', '7/C08'),
+    'C09': ('bounded symbolic execution of Config / Context / Chain construction with one SMT variable per value source; the selected-source term compared by cvc5/z3',
+            'For a depth-3 config tree, five context forms (dict, JSON/YAML file, list of up to 3, nested uses) and '
+            'every presence pattern of the sources: each parameter is the term of the source the precedence rule '
+            'selects, for all values (unsat per path); missing / mistyped values and conflicting declarations '
+            'raise, #part references resolve, no mutable value is shared, a reused context is not altered.', '7/C09'),
+    'C11': ('bounded symbolic execution of search_and_replace_placeholders / ReprStr on segment-structured strings (text parts and placeholder names are SMT strings); result, idempotence and repr terms compared by cvc5/z3',
+            'For strings with up to two brace groups, text parts and names unbounded and brace-free, global_vars as '
+            'mapping or object: defined groups are replaced by str(value), everything else is unchanged, a second '
+            'application changes nothing, repr keeps the placeholder form also after copy/deepcopy (unsat per '
+            'path); concrete scenarios cover values containing placeholders, uses paths, context uses (3 levels), '
+            'object definitions and config copies; nested braces are a recorded finding.', '7/C11'),
+    'C14': ('branch-driven symbolic exploration of FileCache / JsonCache / InMemoryCache against a dictionary model with opaque symbolic values (cvc5/z3 term equality); truncations through the real numpy/pandas/orjson by symbolic cut',
+            'From four pre-states (absent, intact, recorded for another key, damaged) every sequence of 2 (thorough 3) '
+            'operations (get, get_or_compute, force, raising computer) on the cache or two sub-caches, for four key '
+            'pairs (incl. digests sharing the directory prefix): returned terms, compute counts and reports match '
+            'the model; for JSON / numpy (incl. object dtype) / DataFrame values every kind of truncation is never '
+            'returned but recomputed.', '7/C14'),
+    'C15': ('exhaustive exploration of all interleavings of generator forms of the real cache methods (regenerated from cache.py) under a scheduler with symbolic choices, incl. what a reader sees of a file being written',
+            'For 2 (thorough 3) concurrent callers, each get / get_or_compute / forced, from 4 pre-states, for the '
+            'JSON and the pickle cache: on every schedule each call returns a completely computed value (or '
+            'NO_VALUE), none fails because of another, the entry is complete at quiescence, a late caller does not '
+            'recompute, no deadlock. Lock = model mutex; no real threads.', '7/C15'),
+    'C16': ('bounded symbolic execution of the cached decorator with symbolic argument values and call spellings; key equality decided by cvc5/z3 on a canonical key abstraction of json.dumps',
+            'For five signatures and both decorator forms, two calls of every spelling (positional / keyword / '
+            'default omitted, both keyword orders) with unbounded symbolic values: one execution exactly when the '
+            'bindings are equal (two unsat queries per path), the method receives the right binding; concrete '
+            'nested values through the real json.dumps cover methods, versions, ignored arguments and the three '
+            'control keywords.', '7/C16'),
+    'C17': ('bounded symbolic execution of both parallel_map implementations under a stub event loop whose completion order is a symbolic permutation; outputs opaque SMT values; chunked with a symbolic integer chunk size',
+            'For inputs of length 0-4 (thorough 0-6), chunk sizes 1-3, 1-3 threads, sort on/off, every completion '
+            'order within a chunk and every raising element: the result equals the sequential map term by term, f '
+            'runs exactly once per element, exceptions propagate; chunked yields full chunks and a non-empty rest '
+            'for every chunk size (unbounded integer).', '7/C17'),
+    'C20': ('branch-driven symbolic exploration of migrate_to_parameter_mode over a model file system with computed subset, dry flag, repetition, config naming, context and global_vars as solver-tracked bounded integers',
+            'For every subset of computed tasks (files, directory, json-lines), dry / real, repeated, plain / dotted '
+            'config name, with / without context and global_vars: the parameter-mode chain on the target has exactly '
+            'the computed results, equal values, runs nothing; the source tree is unchanged apart from the recorded '
+            'finding; a second migration changes nothing; dry writes no result file.', '7/C20'),
 }
 NOT_YET = 'check not built yet in this round (planned, see DESIGN.md section 7); not claimed until it runs'
 ALL = [f'C{i:02d}' for i in range(1, 21)]
